@@ -19,7 +19,22 @@ def cases(rng, tier, shard, nshards):
 
 def run(case, ctx):
     before = hooks.counts().get("unique_names_evals", 0)
-    shape = H.run_history(case, ctx, compare_every=True)
+    def at_end(g, model):
+        # an unused name is carried by no line and mentioned by none (the identifiers which are only
+        # referred to are in use too: a line added under one of them takes the references over)
+        from ..spec import textmodel as T
+        for _ in range(2):
+            r = call(ctx, "unused_name", g.unused_name)
+            ctx.count("unused_names_asked")
+            if not r.ok:
+                return
+            mentioned = {m for x in model.recs for m, role in T.mentions(x)}
+            if r.value in model.names() or r.value in mentioned:
+                ctx.violation("unused-name-in-use/%s" % ("carried" if r.value in model.names() else "mentioned"),
+                              "unused_name() returned %r; the document carries %r and mentions %r"
+                              % (r.value, sorted(model.names()), sorted(mentioned)))
+                return
+    shape = H.run_history(case, ctx, compare_every=True, at_end=at_end)
     ctx.count("invariant_evaluations", hooks.counts().get("unique_names_evals", 0) - before)
     if any(s.startswith("F:duplicate-add") or s.startswith("F:rename-to-used") or s.startswith("rename")
            for s in shape):
